@@ -1,5 +1,7 @@
 import TT.Model.H1
 import TT.Lemmas.H1
+import TT.Model.H1Relay
+import TT.Lemmas.H1Relay
 /-!
 # C08  HTTP/1.1 transport is segmentation-invariant and never spins
 -/
@@ -132,3 +134,66 @@ theorem response_wellformed (minor : Nat) (code reason : Bytes) (headers : List 
   simp
 
 end TT.H1
+
+/-!
+## The relaying phase: payload goes both ways until either side closes
+-/
+namespace TT.H1Relay
+open TT
+
+/-- how a closing event ends the call -/
+def Ev.ending : Ev → End
+  | .clientEof | .relayEof _ => .graceful
+  | .relayGone fired => if fired then .graceful else .failed
+  | _ => .failed
+
+/-- the chunk that was queued behind an end-of-response notification is still written -/
+def Ev.queued : Ev → Bytes
+  | .relayEof q => q
+  | _ => []
+
+/-- **payload is relayed in both directions until either side closes**: while the client sends and
+the relay side answers, everything is handed on, in order, in both directions, and the call goes on -/
+theorem relaying_goes_on (evs : List Ev) (h : ∀ e ∈ evs, e.relays = true) :
+    run {} evs = ({ upload := ups evs, written := downs evs }, none) := by
+  have := run_relays {} evs rfl h []
+  simpa [run] using this
+
+/-- ... **and ends with the first close**: the client's end of stream, the relay side's orderly end
+(`eof()`), the relay side going away without one, or a failed read end the call at once - gracefully
+in the first two cases, with an error otherwise; every byte either side sent before that was handed
+on (and the chunk queued behind an orderly end is still written), nothing that comes later is -/
+theorem relayed_until_close (pre post : List Ev) (e : Ev)
+    (hp : ∀ x ∈ pre, x.relays = true) (hc : e.closes = true) :
+    run {} (pre ++ e :: post) =
+      ({ upload := ups pre, written := downs pre ++ e.queued }, some e.ending) := by
+  rw [run_relays {} pre rfl hp]
+  cases e <;> simp_all [Ev.closes, run, step, Ev.queued, Ev.ending]
+
+/-- a session never outlives either side: whatever else happens, once a closing event was seen
+the call has returned -/
+theorem session_ends_with_either_side (evs : List Ev) (h : ∃ e ∈ evs, e.closes = true) :
+    (run {} evs).2.isSome = true :=
+  run_ends {} evs h
+
+/-- the relay side going away without an orderly end is an error, never a graceful end -/
+theorem abort_is_not_graceful (pre post : List Ev) (hp : ∀ x ∈ pre, x.relays = true) :
+    (run {} (pre ++ .relayGone false :: post)).2 = some .failed := by
+  rw [relayed_until_close pre post _ hp rfl]; rfl
+
+/-- client bytes that arrive after the relay side dropped the upload source end the call with an error
+(they are not silently discarded) -/
+theorem upload_without_source_fails (pre post : List Ev) (b : Bytes) (hp : ∀ x ∈ pre, x.relays = true) :
+    (run {} (pre ++ .sourceGone :: .up b :: post)).2 = some .failed := by
+  rw [run_relays {} pre rfl hp]
+  simp [run, step]
+
+/-- the hypotheses are met by a concrete session, and the three ends differ as stated -/
+example :
+    run {} [.up [1, 2], .down [9] true, .up [3], .relayEof [8], .up [4]]
+      = ({ upload := [1, 2, 3], written := [9, 8] }, some .graceful)
+    ∧ (run {} [.up [1], .relayGone false]).2 = some .failed
+    ∧ (run {} [.up [1], .clientEof, .down [5] true]).1.written = []
+    ∧ (run {} [.up [1], .down [5] true]).2 = none := by decide
+
+end TT.H1Relay
